@@ -421,10 +421,18 @@ class NameConverter(ast.NodeTransformer):
 
     def visit_Name(self, node):
         if node.id in self.recurse_syms:
-            return ast.copy_location(
-                old_node=node,
-                new_node=ast.Name(self.ovld_mangled, ctx=node.ctx),
-            )
+            new_node = ast.Name(self.ovld_mangled, ctx=node.ctx)
+            if self.analysis.is_method and isinstance(node.ctx, ast.Load):
+                # Used as a value (r = recurse, map(recurse, xs)): the
+                # function bound to self, like recurse(...) calls are
+                new_node = ast.Call(
+                    func=ast.Attribute(
+                        value=new_node, attr="__get__", ctx=ast.Load()
+                    ),
+                    args=[ast.Name(id="self", ctx=ast.Load())],
+                    keywords=[],
+                )
+            return ast.copy_location(old_node=node, new_node=new_node)
         elif node.id == self.call_next_sym:
             raise UsageError("call_next should be called right away")
         else:
